@@ -40,6 +40,18 @@ CLAIMS = {
         note=COMMON_NOTE + 'Theorems are parametric in the colour conversion; the float conversion itself is C07/C14. Out-of-domain rectangles abort the script (stated as theorems, not demanded otherwise).',
         technique='Coq proof by induction over stages/statements, parametric in conversions; shape-tied model; correspondence + oracle runs',
         design='DESIGN.md 7 C15'),
+    'C19': dict(
+        text=('StdOutOutput + VmIo + io_parser modelled as a state machine over one persistent sink; str.format modelled for the '
+              'documented subset (literal text, {{ }}, fields {} {n} {name} with specs [<>^]N, d, .Nf, s ...; float rendering computed '
+              'exactly from the binary64 value). Theorems for every sequence and nesting of print/println/printf events: stdout text = '
+              'the specification rendering (single separating space on a line, println ends the line, no separator after text ending '
+              'in a line break, printf = str.format of its own values); positional field count at compile time = values consumed at run '
+              'time for all strings; everything pending is written at job end; a job is independent of the sink state it starts in. '
+              'Source texts of 20+ methods tied by normalised-text comparison; jobs run with the production binding, sys.stdout captured; '
+              'str.format tie against CPython on thousands of format strings per run.'),
+        note=COMMON_NOTE + 'Format strings outside the modelled subset (nested fields, conversions, attribute/index names, fill/sign/#/0 flags) are Unsupported and excluded; relative order with device commands inside the VM is C01\'s; PrimFloat primitives appear in Print Assumptions (Prim2SF).',
+        technique='Coq proof by mutual induction over output-event trees + exact float formatting; shape-tied model; oracle and correspondence runs',
+        design='DESIGN.md 7 C19'),
 }
 
 
